@@ -75,3 +75,7 @@ def replay(d):
                    declarer=adapt.PL[d['decl']] if d['decl'] else None)
     got = calc_score(con, d['tricks'])
     return got != 0, f'calc_score -> {got}, expected 0'
+
+
+from ..conc import driver as _conc  # noqa: E402
+_conc.wrap(globals(), 'C07')
